@@ -41,7 +41,14 @@ type Op struct {
 	// "same-text" (same command text, outputs differ), "same-out" (different texts, identical
 	// output), followed by the positions, e.g. "identical:1,2,4".
 	Repeat string `json:"repeat,omitempty"`
+	// Long names the command that was stretched beyond 4096 bytes ("index:length"; "" = none):
+	// from-file variants must hand such a file line to the device as one command.
+	Long string `json:"long,omitempty"`
 }
+
+// longLineMax keeps generated lines below bufio.MaxScanTokenSize (65536): at or above it the
+// pinned file loader silently drops the line and everything after it (reported separately).
+const longLineMax = 65000
 
 func isGenericOpt(n string) bool { return n == "fwc" || n == "stop" }
 
@@ -719,8 +726,48 @@ func buildOp(r *rand.Rand, s *Session, o Op, pattern string, p []string, unliste
 	for i := 0; i < len(pattern); i++ {
 		o.Cmds = append(o.Cmds, g.genCmd(i, pattern[i]))
 	}
+	applyLong(r, s, &o)
 	applyRepeat(r, &o, pattern)
 	return o
+}
+
+// applyLong stretches one command of the list to more than 4096 bytes (a long banner /
+// certificate / prefix-list line): in about 1/8 of the from-file operations, as a control in 1/40
+// of the others; four times rarer and short (<= 4600) in sessions with tiny reads, where every
+// echoed byte costs a read.
+func applyLong(r *rand.Rand, s *Session, o *Op) {
+	den := 40
+	if strings.HasSuffix(o.API, "file") {
+		den = 8
+	}
+	tiny := (s.Seg.Mode == "fixed" && s.Seg.Size <= 3) || s.ReadSize == 1
+	small := tiny || s.Seg.Mode == "geom" || s.Seg.Mode == "fixed" || s.ReadSize <= 4
+	if tiny {
+		den *= 4
+	}
+	if r.Intn(den) != 0 {
+		return
+	}
+	var l int
+	switch x := r.Intn(20); {
+	case tiny:
+		l = 4097 + r.Intn(500)
+	case x < 3:
+		l = 4097 + r.Intn(3) // just over the 4096 boundary
+	case x < 12 || small:
+		l = 4100 + r.Intn(4093) // two fragments of 4096
+	case x < 19:
+		l = 8193 + r.Intn(8000) // three or four
+	default:
+		l = 16384 + r.Intn(longLineMax-16384)
+	}
+	i := r.Intn(len(o.Cmds))
+	t := o.Cmds[i].Text
+	if len(t) >= l {
+		return
+	}
+	o.Cmds[i].Text = t[:len(t)-1] + " " + randStr(r, cmdAlpha, l-len(t)-1) + t[len(t)-1:]
+	o.Long = fmt.Sprintf("%d:%d", i, l)
 }
 
 // applyRepeat overlays repeated commands on about a third of the lists of length >= 2: a source
